@@ -260,8 +260,14 @@ func propExpressions(t *rapid.T) {
 			want = embed + fmtAny(want)
 		}
 		tag := embed + "#{" + e + "}"
-		obj := reflect.New(reflect.StructOf([]reflect.StructField{{Name: "F", Type: typ, Tag: reflect.StructTag("value:" + strconv.Quote(tag))}}))
+		dc := kit.DrawDecoys(t) // neighbouring fields of other tag kinds must not matter
+		obj := reflect.New(reflect.StructOf(dc.Around(reflect.StructField{Name: "F", Type: typ, Tag: reflect.StructTag("value:" + strconv.Quote(tag))})))
 		out := kit.RunApp(app.SetComponents(obj.Interface()), app.SetConfigLoader(loader.NewRawLoader(c.yaml())))
+		if out.OK() {
+			if err := dc.Check(obj); err != nil {
+				t.Fatalf("C18: %v%s", err, dc)
+			}
+		}
 		desc := fmt.Sprintf("value:%q cfg nums=%v strs=%v => %q", tag, c.Nums, c.Strs, sub)
 		if out.Panic != nil {
 			t.Fatalf("C18: panic %v\n%s", out.Panic, desc)
@@ -269,7 +275,7 @@ func propExpressions(t *rapid.T) {
 		if out.Err != nil {
 			t.Fatalf("C18: the expression evaluates (after substitution: %s = %#v) but start-up failed: %v\n%s", sub, want, out, desc)
 		}
-		got := obj.Elem().Field(0).Interface()
+		got := obj.Elem().FieldByName("F").Interface()
 		if embed != "" && embeddedFloat != nil {
 			// a float rendered inside text: any decimal spelling of the same number is fine
 			gs, _ := got.(string)
@@ -430,8 +436,14 @@ func TestValidateVar(t *testing.T) {
 		if isInt {
 			typ = reflect.TypeOf(int64(0))
 		}
-		obj := reflect.New(reflect.StructOf([]reflect.StructField{{Name: "F", Type: typ, Tag: reflect.StructTag("value:" + strconv.Quote(tag))}}))
+		dc := kit.DrawDecoys(t) // neighbouring fields of other tag kinds must not matter
+		obj := reflect.New(reflect.StructOf(dc.Around(reflect.StructField{Name: "F", Type: typ, Tag: reflect.StructTag("value:" + strconv.Quote(tag))})))
 		out := kit.RunApp(app.SetComponents(obj.Interface()), app.SetConfigLoader(loader.NewRawLoader([]byte(cfg))))
+		if out.OK() {
+			if err := dc.Check(obj); err != nil {
+				t.Fatalf("C18: %v%s", err, dc)
+			}
+		}
 		desc := fmt.Sprintf("value:%q (%s) cfg=%q", tag, typ, cfg)
 		if out.Panic != nil {
 			t.Fatalf("C18: panic %v\n%s", out.Panic, desc)
@@ -451,7 +463,7 @@ func TestValidateVar(t *testing.T) {
 			t.Fatalf("C18: bound value %#v, constraints %v (validate present: %v): reference says violated=%v, but start-up %s\n%s", val, items, withValidate, !ok, map[bool]string{true: "failed: " + out.String(), false: "succeeded"}[out.Err != nil], desc)
 		}
 		if out.Err == nil {
-			if got := obj.Elem().Field(0).Interface(); !reflect.DeepEqual(got, val) {
+			if got := obj.Elem().FieldByName("F").Interface(); !reflect.DeepEqual(got, val) {
 				t.Fatalf("C18: field holds %#v, expected %#v\n%s", got, val, desc)
 			}
 		}
@@ -496,8 +508,14 @@ func TestValidateStruct(t *testing.T) {
 		if ptr {
 			typ = reflect.TypeOf(&VS{})
 		}
-		obj := reflect.New(reflect.StructOf([]reflect.StructField{{Name: "F", Type: typ, Tag: reflect.StructTag("prefix:" + strconv.Quote(tag))}}))
+		dc := kit.DrawDecoys(t) // neighbouring fields of other tag kinds must not matter
+		obj := reflect.New(reflect.StructOf(dc.Around(reflect.StructField{Name: "F", Type: typ, Tag: reflect.StructTag("prefix:" + strconv.Quote(tag))})))
 		out := kit.RunApp(app.SetComponents(obj.Interface()), app.SetConfigLoader(loader.NewRawLoader(doc)))
+		if out.OK() {
+			if err := dc.Check(obj); err != nil {
+				t.Fatalf("C18: %v%s", err, dc)
+			}
+		}
 		desc := fmt.Sprintf("prefix:%q ptr=%v value %+v", tag, ptr, v)
 		if out.Panic != nil {
 			t.Fatalf("C18: panic %v\n%s", out.Panic, desc)
@@ -612,8 +630,14 @@ func TestValidateUnboundPointer(t *testing.T) {
 			}
 		}
 		tag := map[string]string{"value": "${c18.v}", "prop": "c18.v", "prefix": "c18.v"}[via] + ",required=false,validate=" + cons
-		obj := reflect.New(reflect.StructOf([]reflect.StructField{{Name: "F", Type: typ, Tag: reflect.StructTag(via + ":" + strconv.Quote(tag))}}))
+		dc := kit.DrawDecoys(t) // neighbouring fields of other tag kinds must not matter
+		obj := reflect.New(reflect.StructOf(dc.Around(reflect.StructField{Name: "F", Type: typ, Tag: reflect.StructTag(via + ":" + strconv.Quote(tag))})))
 		out := kit.RunApp(app.SetComponents(obj.Interface()), app.SetConfigLoader(loader.NewRawLoader([]byte(cfg))))
+		if out.OK() {
+			if err := dc.Check(obj); err != nil {
+				t.Fatalf("C18: %v%s", err, dc)
+			}
+		}
 		desc := fmt.Sprintf("%s:%q (%s) bound=%v cfg=%q", via, tag, typ, bound, cfg)
 		if out.Panic != nil {
 			t.Fatalf("C18: panic %v\n%s", out.Panic, desc)
